@@ -284,6 +284,15 @@ func RunOpts(srcDir, dstDir string, rewrite bool) (*Descriptor, error) {
 		tf := fset.File(f.Pos())
 
 		importsSync := false
+		importNames := map[string]bool{} // names under which this file knows imported packages
+		for _, imp := range f.Imports {
+			p := strings.Trim(imp.Path.Value, "`\"")
+			n := p[strings.LastIndex(p, "/")+1:]
+			if imp.Name != nil {
+				n = imp.Name.Name
+			}
+			importNames[n] = true
+		}
 		timeName, timeRewrites := "", 0
 		for _, imp := range f.Imports {
 			p := strings.Trim(imp.Path.Value, "`\"")
@@ -348,7 +357,7 @@ func RunOpts(srcDir, dstDir string, rewrite bool) (*Descriptor, error) {
 				return
 			}
 			recv := ""
-			if simpleRecv(sel.X) {
+			if simpleRecv(sel.X) && !importNames[rootIdent(sel.X)] {
 				recv = string(src[tf.Offset(sel.X.Pos()):tf.Offset(sel.X.End())])
 				if strings.ContainsAny(recv, "\n\r") {
 					recv = ""
@@ -378,7 +387,12 @@ func RunOpts(srcDir, dstDir string, rewrite bool) (*Descriptor, error) {
 			case sel.Sel.Name == "Put" && len(call.Args) == 1 && recv != "" && importsSync:
 				// sync.Pool may drop any item at any time: the simulator makes it do so now and then (x is probed at
 				// run time; for anything but a sync.Pool the statement runs unchanged)
-				ins = append(ins, insertion{off: tf.Offset(x.Pos()), text: fmt.Sprintf("if !zzSimhook.PoolDrop(&(%s)) { ", recv)})
+				arg := string(src[tf.Offset(call.Args[0].Pos()):tf.Offset(call.Args[0].End())])
+				if strings.ContainsAny(arg, "\n\r") || importNames[rootIdent(sel.X)] {
+					break
+				}
+				// (the argument is evaluated exactly once either way: it may have side effects)
+				ins = append(ins, insertion{off: tf.Offset(x.Pos()), text: fmt.Sprintf("if zzSimhook.PoolDrop(&(%s)) { _ = %s } else { ", recv, arg)})
 				ins = append(ins, insertion{off: tf.Offset(x.End()), text: " }"})
 				d.PoolSites++
 			case isGosched(call):
@@ -428,11 +442,12 @@ func RunOpts(srcDir, dstDir string, rewrite bool) (*Descriptor, error) {
 			case *ast.CallExpr:
 				if sel, ok := x.Fun.(*ast.SelectorExpr); ok && rewrite && importsSync && sel.Sel.Name == "Get" && len(x.Args) == 0 && simpleRecv(sel.X) {
 					recv := string(src[tf.Offset(sel.X.Pos()):tf.Offset(sel.X.End())])
-					if !strings.ContainsAny(recv, "\n\r") {
+					if !strings.ContainsAny(recv, "\n\r") && !importNames[rootIdent(sel.X)] {
 						// x.Get() may find the pool empty at any time (another processor's cache, a collection): the
 						// simulator makes it so now and then
-						ins = append(ins, insertion{off: tf.Offset(x.Pos()), text: fmt.Sprintf("zzSimhook.PoolGet(&(%s), func() interface{} { return ", recv)})
-						ins = append(ins, insertion{off: tf.Offset(x.End()), text: " })"})
+						// x.Get() becomes zzSimhook.PoolGet(&(x), x.Get): the static type of the result stays what it was
+						ins = append(ins, insertion{off: tf.Offset(x.Pos()), text: fmt.Sprintf("zzSimhook.PoolGet(&(%s), ", recv)})
+						ins = append(ins, insertion{off: tf.Offset(x.Lparen), text: ")", del: tf.Offset(x.Rparen) + 1 - tf.Offset(x.Lparen)})
 						d.PoolSites++
 					}
 				}
@@ -808,13 +823,17 @@ func poolOf(p interface{}) *sync.Pool {
 	return nil
 }
 
-// PoolGet stands in for x.Get() of the instrumented module.
-func PoolGet(p interface{}, real func() interface{}) interface{} {
+// PoolGet stands in for x.Get() of the instrumented module (real is the method value x.Get; T is interface{} when x is
+// a sync.Pool and whatever the method returns otherwise).
+func PoolGet[T any](p interface{}, real func() T) T {
 	if pp := poolOf(p); pp != nil && PoolFault != nil && PoolFault() {
+		var zero T
 		if pp.New != nil {
-			return pp.New()
+			if v, ok := pp.New().(T); ok {
+				return v
+			}
 		}
-		return nil
+		return zero
 	}
 	return real()
 }
@@ -860,6 +879,26 @@ func isErrSentinel(vs *ast.ValueSpec, i int) bool {
 	}
 	id, ok := sel.X.(*ast.Ident)
 	return ok && id.Name == "errors" && sel.Sel.Name == "New"
+}
+
+// rootIdent returns the leftmost identifier of a selector / index / dereference chain ("" if there is none).
+func rootIdent(e ast.Expr) string {
+	for {
+		switch x := e.(type) {
+		case *ast.Ident:
+			return x.Name
+		case *ast.SelectorExpr:
+			e = x.X
+		case *ast.IndexExpr:
+			e = x.X
+		case *ast.StarExpr:
+			e = x.X
+		case *ast.ParenExpr:
+			e = x.X
+		default:
+			return ""
+		}
+	}
 }
 
 // recvTypeName returns the name of a method receiver's type.
